@@ -18,7 +18,10 @@ def binary_leg(ctx, rounds):
     base = os.path.join(root, "base")
     os.makedirs(base, mode=0o700)
     cfg = os.path.join(root, "store.yaml")
-    mk = lambda default: open(cfg, "w").write((fsfam.CFG % (base, base64.b64encode(fsfam.HMAC1).decode())).replace("default: 1", "default: %d" % default))
+    # (argon2id with 32 MiB: verifying the old password takes some 10 ms, which keeps the login and its upgrade in flight long
+    # enough for the password change to overlap them)
+    mk = lambda default: open(cfg, "w").write((fsfam.CFG % (base, base64.b64encode(fsfam.HMAC1).decode())).replace(
+        "default: 1", "default: %d" % default).replace("memory: 8", "memory: 32768"))
     mk(2)
     users = ["user%d" % i for i in range(rounds)]
     run = lambda *a: subprocess.run([exe, "--store", cfg] + list(a), stdout=subprocess.PIPE, stderr=subprocess.STDOUT, text=True, timeout=60)
@@ -73,7 +76,7 @@ def binary_leg(ctx, rounds):
             t1 = threading.Thread(target=lambda: res.__setitem__("sasl", sasl(u, old)))
             t2 = threading.Thread(target=lambda: res.__setitem__("upd", post("/api/update", {"session": token, "username": u, "newpassword": new})[0]))
             first, second = (t1, t2) if i % 3 else (t2, t1)
-            first.start(); time.sleep([0, 0.001, 0.004, 0.02][i % 4]); second.start()
+            first.start(); time.sleep([0, 0.002, 0.01, 0.03, 0.06][i % 5]); second.start()
             t1.join(); t2.join()
             time.sleep(0.25)
             n += 1
@@ -132,7 +135,7 @@ def run(ctx):
     results, events = af.run_scenarios(ctx, scenarios, "c11")
     nval = af.judge(ctx, scenarios, results, events, "c11", "C11")
     cov["traces_validated_against_impl"] = nval
-    cov["binary_cross_listener_rounds"] = binary_leg(ctx, 12 if not thorough else 60)
+    cov["binary_cross_listener_rounds"] = binary_leg(ctx, 20 if not thorough else 80)
     cov["evaluations"] = len(events)
     cov["distinct_nontrivial"] = len({json.dumps({k: e.get(k) for k in ("ev", "c", "k", "u", "p", "a", "ok")}) for e in events})
     cov["rule"] = ("each recorded run of the real dispatcher (gated model behaviours, TLC counterexamples of wrong "
